@@ -34,6 +34,7 @@ type Q struct {
 	notes     map[string]bool // abstraction notes (assumptions met during translation)
 	defCache  map[string]string
 	defs      map[string]string
+	constArrs []string
 }
 
 type structInfo struct {
@@ -287,7 +288,7 @@ func (q *Q) zero(t types.Type) string {
 	case *types.Interface, *types.TypeParam:
 		return "inil"
 	case *types.Array:
-		return fmt.Sprintf("((as const %s) %s)", q.sortOf(t), q.zero(u.Elem()))
+		return q.constArray(q.sortOf(t), q.intSort(), q.zero(u.Elem()))
 	case *types.Struct:
 		fs := make([]string, u.NumFields())
 		for i := range fs {
@@ -296,6 +297,34 @@ func (q *Q) zero(t types.Type) string {
 		return q.mkStruct(t, fs)
 	}
 	return "nil"
+}
+
+// constArray: an array that maps every index to `val`. SMT-LIB `as const` needs a value; for declared constants
+// (nil, string literals, ...) an axiomatised array constant is used instead.
+func (q *Q) constArray(arrSort, idxSort, val string) string {
+	if val == "false" || val == "true" || val == "0.0" || isNumeral(val) || strings.HasPrefix(val, "(_ bv") {
+		return fmt.Sprintf("((as const %s) %s)", arrSort, val)
+	}
+	key := "constarr:" + arrSort + ":" + val
+	if n, ok := q.declared[key]; ok {
+		return n
+	}
+	n := fmt.Sprintf("|constarr!%d|", len(q.constArrs))
+	q.constArrs = append(q.constArrs, fmt.Sprintf("(declare-const %s %s)\n(assert (forall ((|i?ca| %s)) (! (= (select %s |i?ca|) %s) :pattern ((select %s |i?ca|)))))", n, arrSort, idxSort, n, val, n))
+	q.declared[key] = n
+	return n
+}
+
+func isNumeral(s string) bool {
+	if s == "" {
+		return false
+	}
+	for _, c := range s {
+		if c < '0' || c > '9' {
+			return false
+		}
+	}
+	return true
 }
 
 func (q *Q) nilSlice() string {
@@ -531,6 +560,10 @@ func (q *Q) query(k int, extraAssumps []string, negGoal string, getValues []stri
 	b.WriteString(q.prelude())
 	b.WriteString(q.stringFacts())
 	b.WriteString(q.heapDecls())
+	for _, d := range q.constArrs {
+		b.WriteString(d)
+		b.WriteString("\n")
+	}
 	for _, d := range q.decls {
 		b.WriteString(d)
 		b.WriteString("\n")
